@@ -2,8 +2,12 @@ package c08
 
 import (
 	"fmt"
+	"os"
 	"sync"
+	"syscall"
+	"testing"
 	"time"
+	"verif/harness/cold"
 
 	"verif/harness/ev"
 	"verif/harness/farm"
@@ -19,6 +23,9 @@ type crowdCase struct {
 	DelayMs int    `json:"reply_after_ms"`
 	Path    string `json:"path"` // udp | broadcast | tcp
 	AnyAddr bool   `json:"bind_any,omitempty"`
+	// Files: the soft limit on open files is lowered to this for the duration of the case (0 = left alone): a modest limit - 256
+	// is the default on some systems - that the calls in flight fit into with room to spare
+	Files int `json:"file_limit,omitempty"`
 }
 
 func runCrowd(c crowdCase, scale int) *rp.Fail {
@@ -39,6 +46,11 @@ func runCrowd(c crowdCase, scale int) *rp.Fail {
 	if c.AnyAddr {
 		cfg.BindIP = [4]byte{0, 0, 0, 0}
 	}
+	if c.Files != 0 {
+		// the controller answers every request `delay` after seeing it; the timeout is 1.3 times that plus 300 ms (what a call
+		// would not survive is being SENT late with a deadline that started running earlier)
+		cfg.TimeoutMs = c.DelayMs*scale*13/10 + 300
+	}
 	if c.Path == "udp" {
 		cfg.Devices = []hook.DeviceCfg{{Serial: serial, HasAddr: true, IP: [4]byte{127, 0, 1, 77}, Port: ctrl.Addr.Port(), Protocol: "udp"}}
 	}
@@ -56,6 +68,19 @@ func runCrowd(c crowdCase, scale int) *rp.Fail {
 		cfg.Devices = []hook.DeviceCfg{{Serial: serial, HasAddr: true, IP: [4]byte{127, 0, 1, 78}, Port: tc.Addr.Port(), Protocol: "tcp"}}
 	}
 	u := hook.Real(cfg)
+	if c.Files > 0 {
+		var lim syscall.Rlimit
+		if syscall.Getrlimit(syscall.RLIMIT_NOFILE, &lim) == nil && lim.Cur > uint64(c.Files) {
+			if entries, err := os.ReadDir("/proc/self/fd"); err == nil && len(entries)+c.N+40 < c.Files {
+				low := lim
+				low.Cur = uint64(c.Files)
+				if syscall.Setrlimit(syscall.RLIMIT_NOFILE, &low) == nil {
+					defer syscall.Setrlimit(syscall.RLIMIT_NOFILE, &lim)
+					ev.Class("crowd/with-a-modest-limit-on-open-files", 1)
+				}
+			}
+		}
+	}
 	var mu sync.Mutex
 	var crossed, failed []string
 	var wg sync.WaitGroup
@@ -103,7 +128,8 @@ func checkCrowd(c crowdCase) *rp.Fail {
 }
 
 func sweepCrowd(yield func(crowdCase) bool) {
-	cases := []crowdCase{{N: 240, DelayMs: 300, Path: "udp"}, {N: 160, DelayMs: 200, Path: "broadcast"}, {N: 320, DelayMs: 400, Path: "udp", AnyAddr: true}, {N: 200, DelayMs: 250, Path: "udp"}, {N: 200, DelayMs: 300, Path: "tcp"}}
+	cases := []crowdCase{{N: 240, DelayMs: 300, Path: "udp"}, {N: 160, DelayMs: 200, Path: "broadcast"}, {N: 320, DelayMs: 400, Path: "udp", AnyAddr: true}, {N: 200, DelayMs: 250, Path: "udp"}, {N: 200, DelayMs: 300, Path: "tcp"},
+		{N: 160, DelayMs: 1200, Path: "broadcast", Files: 256}, {N: 150, DelayMs: 900, Path: "udp", Files: 256}}
 	if ev.Thorough() {
 		for i := 0; i < 12; i++ {
 			cases = append(cases, crowdCase{N: 200 + 100*(i%8), DelayMs: 200 + 100*(i%4), Path: []string{"udp", "udp", "broadcast", "tcp"}[i%4], AnyAddr: i%2 == 1})
@@ -114,4 +140,38 @@ func sweepCrowd(yield func(crowdCase) bool) {
 			return
 		}
 	}
+}
+
+// TestColdChild (fresh child process only, see harness/cold): a process that has had a modest limit on open files from its
+// very start - whatever the library sizes from that limit is sized then - makes a crowd of concurrent calls that fits into the
+// limit with room to spare. Every call is answered well inside its timeout of being SENT.
+func TestColdChild(t *testing.T) {
+	if cold.Scenario() == "" {
+		t.Skip("cold-start child only")
+	}
+	var lim syscall.Rlimit
+	if syscall.Getrlimit(syscall.RLIMIT_NOFILE, &lim) != nil {
+		cold.Done(0)
+		return
+	}
+	low := lim
+	low.Cur = 256
+	if lim.Cur < 256 || syscall.Setrlimit(syscall.RLIMIT_NOFILE, &low) != nil {
+		cold.Done(0)
+		return
+	}
+	k := cold.Index()
+	c := crowdCase{N: 150 + 5*(k%3), DelayMs: 900 + 300*(k%2), Path: []string{"broadcast", "udp"}[k%2], Files: -1}
+	f := runCrowd(c, 1)
+	if f != nil {
+		if f2 := runCrowd(c, 3); f2 == nil {
+			f = nil
+		} else {
+			f = f2
+		}
+	}
+	if f != nil {
+		cold.Report(f.Fingerprint+"/process-with-a-modest-file-limit", f.Msg+" (the process has had a soft limit of 256 open files since it started)", c)
+	}
+	cold.Done(c.N)
 }
